@@ -22,7 +22,7 @@ ASSUMPTIONS = ["exact rational arithmetic (fractions) for all predicates", "quer
 FLOORS = {'quick': {'ray-status': 1500, 'ray-params': 500, 'is_left': 1500, 'wn_poly': 5000, 'hull': 300, 'voxel-fill': 1500,
                     'voxel-cover': 500, 'find_ctrlpts': 300},
           'thorough': {'ray-status': 15000, 'wn_poly': 50000, 'hull': 3000, 'voxel-fill': 15000}}
-MANDATORY_TAGS = ['ray:cross2d', 'ray:cross3d', 'ray:parallel', 'ray:coincident', 'ray:skew', 'vox:planar-axis-aligned', 'ray:near-parallel', 'is_left:near-collinear', 'hull:float-near-collinear', 'ray:generic-cross2d', 'ray:generic-cross3d', 'ray:coords<=1000', 'ray:scale=2^-24', 'ray:scale=2^20', 'poly:star', 'poly:orthogonal',
+MANDATORY_TAGS = ['ray:cross2d', 'ray:cross3d', 'ray:parallel', 'ray:coincident', 'ray:skew', 'vox:planar-axis-aligned', 'vox:padding', 'ray:near-parallel', 'is_left:near-collinear', 'hull:float-near-collinear', 'ray:generic-cross2d', 'ray:generic-cross3d', 'ray:coords<=1000', 'ray:scale=2^-24', 'ray:scale=2^20', 'poly:star', 'poly:orthogonal',
                   'poly:cw', 'poly:ccw', 'hull:collinear', 'vox:surface', 'vox:volume', 'vox:cubes', 'find:unnormalized']
 TECHNIQUE = ("runtime monitoring: exact-arithmetic oracles (orientation, crossing parity, definitional hull test, exact line "
              "intersection, point-in-box) on every predicate / query call of a constructed-class workload")
@@ -418,9 +418,9 @@ def check_voxel(case, ctx):
         ctx.tag('vox:planar-axis-aligned')
         ext = o.bbox[1][ax0] - o.bbox[0][ax0]
         if ext != 0.0:
-            # rational: Pw/w leaves rounding noise of ~1e-16 in the flat coordinate; cubes with that edge length are 1e16 voxels per
-            # axis, which is what was asked for, not a defect
-            cubes = False
+            # rational: Pw/w leaves rounding noise of ~1e-16 in the flat coordinate - the box is flat for every practical purpose and the
+            # cube edge must come from the other two directions
+            ctx.tag('vox:planar-up-to-rounding')
     import signal
     from ..core import CaseTimeout, CASE_TIMEOUT_S
     signal.alarm(30)
@@ -432,6 +432,14 @@ def check_voxel(case, ctx):
         return
     finally:
         signal.alarm(CASE_TIMEOUT_S)
+    if not planar and rng.random() < 0.3:
+        # the documented padding keyword: a padding larger than the shape puts every sampled point inside every (padded) voxel
+        bbx = o.bbox
+        big = 10.0 * max(1.0, max(abs(c_) for c_ in bbx[0] + bbx[1]))
+        g2, f2 = voxelize.voxelize(o, grid_size=gs, padding=big)
+        ctx.tag('vox:padding')
+        ctx.check(all(f2), 'voxel/padding-ignored', 'voxelize(padding=%r), a padding larger than the bounding box: %d of %d voxels filled (the documented '
+                  'keyword has no effect)' % (big, sum(1 for x in f2 if x), len(f2)), what='voxel-fill')
     pts = [list(p) for p in o.evalpts]
     bb = o.bbox
     tol = 10e-8
